@@ -165,6 +165,8 @@ TraceNext ==
        [] ev.k = "tab" -> TabRow(ev)
        [] ev.k = "clamp" -> ClampRow(ev)
        [] ev.k = "reset" -> Consume /\ Frame /\ tab' = prist /\ UNCHANGED <<env, prist, base, ph>>
+       [] ev.k = "badidx" -> /\ Consume /\ Frame /\ Keep          \* setters / getters with an index outside the option table: no write anywhere, the getters answer 0
+                             /\ GD("BadIndexIgnored", <<ev.idx, ev.same, ev.got>>, ev.same /\ ev.got = 0 /\ ~ev.en /\ ev.sz = 0)
        [] ev.k = "env" -> Consume /\ Frame /\ env' = ev.env /\ UNCHANGED <<tab, prist, base, ph>>
        [] ev.k = "alloc" -> Consume /\ Frame /\ Keep
        [] ev.k = "chunk" -> ChunkRow(ev)
